@@ -412,7 +412,8 @@ CLAIMS = {
         design_ref="DESIGN.md §5 C07"),
     "C20": dict(
         text="For every database layer of the crate the has_storage answer is derived from the MIR of its trait impl (own body that reaches the wrapped source, or the "
-             "inherited constant default) and compared by z3/cvc5 with the wrapped source's answer for all answers; a difference is replayed on the real types.",
+             "inherited constant default) and compared by z3/cvc5 with the wrapped source's answer for all answers; a difference is replayed on the real types. The block-state database's block_hash is checked for a cache read that is "
+             "reachable from a prune site (the answer of a query must not depend on what was pruned in the same call) and for the query of the wrapped database on a miss.",
         note="Partial: the has-storage query through every layer, and the read policy of CacheDB storage / block-hash reads (provenance flow over all paths and cache states); "
              "CacheDB basic/code reads and what CacheDB::commit writes are outside (hash maps); the block-state database's storage read and first load are under C15. "
              "Five layers currently answer `false` regardless of the wrapped data: recorded in known_findings.txt.",
@@ -431,9 +432,11 @@ CLAIMS = {
     "C22": dict(
         text="For each of the three handler rebuild paths the MIR data flow of the reward argument passed to Handler::mainnet* is resolved and the question "
              "`can the rebuilt handler's reward switch differ from the current one` is put to z3 and cvc5 (one query per call site, all call sites of the "
-             "function body); one level down, the Boolean parameter of PostExecutionHandler::new must be what selects Some(reward_beneficiary) vs None. A model is replayed through the real Handler API (native tool) before it is reported.",
-        note="Partial: decides persistence of the switch across pop_handle_register / create_handle_generic / modify_spec_id only; honouring the switch inside a "
-             "transaction and identical other effects are whole-transaction statements outside this technique's reach here.",
+             "function body); one level down, the Boolean parameter of PostExecutionHandler::new must be what selects Some(reward_beneficiary) vs None. A model is replayed through the real Handler API (native tool) before it is reported. "
+             "Crate-wide, every function that builds a Handler from scratch while a configured one is at hand (builder paths included) must hand it the configured setting, and inside "
+             "Handler::mainnet / mainnet_with_spec the flag may flow only into the construction of the post-execution handler (no branch, no other reader).",
+        note="Partial: persistence of the switch across every rebuild site of the crate (reset_handler* and with_*handler_cfg are the documented ways to ask for a new handler and are exempt); "
+             "`every other effect is identical` is decided only as `nothing but the reward handle depends on the flag`, not as a whole-transaction differential.",
         technique="MIR data-flow resolution + SMT query (z3+cvc5) per rebuild call site; native replay on the real Handler",
         engine="smt-mir",
         design_ref="DESIGN.md §5 C22"),
@@ -508,15 +511,19 @@ CLAIMS = {
         text="Each closure the inspector register installs around frame creation and frame return is searched over all its control-flow paths (z3 and cvc5) for one on "
              "which its input stack is pushed / popped a net number of times other than +1 / -1 - including the path on which the inspector supplies the outcome itself; and every "
              "FrameOrResult built by make_call_frame / make_create_frame / make_eofcreate_frame (or a helper they call) must be of the function's own kind, because the kind selects the stack that is popped. "
-             "A model is replayed by running nested calls and a create under a counting inspector, with and without short-circuiting.",
-        note="Partial: per-closure balance only; the pairing of closures by the call loop, step bracketing and log reporting are outside.",
+             "A model is replayed by running nested calls and a create under a counting inspector, with and without short-circuiting. "
+             "The set of opcodes wrapped with the log notification is compared, for all 256 opcodes (8-bit bit-vector query), with the set the instruction table maps to host::log; and the three "
+             "frame closures are searched for a path that queues the inputs for *_end before the inspector's hook could rewrite them.",
+        note="Partial: per-closure balance, the opcode set of the log wrapper and the order hook -> queue; the pairing of closures by the call loop and step bracketing (C28) are outside.",
         technique="SMT path search (z3+cvc5) over the MIR control-flow graphs of the inspector closures with push/pop counting; native replay with a counting inspector",
         engine="smt-mir", design_ref="DESIGN.md §5 C29"),
     "C31": dict(
         text="The three public entry points that run or pre-verify a transaction are searched over all control-flow paths (z3 and cvc5) for an exit - normal or through `?` - "
              "whose last context-touching call is not followed by Evm::clear(); error hooks passed to inspect_err are analysed the same way (they must clear on every "
-             "path); JournaledState::clear must overwrite the whole state by a fresh one on every path. A model is replayed with a transaction that fails the sender-state check on a real Evm.",
-        note="Partial: decides that the reset is invoked on every exit and that it is a whole-struct reset; the equivalence of result sequences with a fresh EVM is outside.",
+             "path); JournaledState::clear must overwrite the whole state by a fresh one on every path. A model is replayed with a transaction that fails the sender-state check on a real Evm. "
+             "Two per-transaction reset points that carry `no loaded precompiles / fork rules leak across a spec change` are searched the same way: EvmContext::set_precompiles replaces the set with its argument "
+             "and warms its addresses on every path; mainnet load_accounts gives the journal the running handler's spec before it loads anything (replay: a reused EVM across ISTANBUL->BERLIN and CANCUN<->SHANGHAI against a fresh one).",
+        note="Partial: decides that the reset is invoked on every exit, that it is a whole-struct reset, and the two reset points named above; the equivalence of result sequences with a fresh EVM is outside.",
         technique="SMT path search (z3+cvc5) over the MIR control-flow graphs of the Evm entry points and their error-hook closures; native replay",
         engine="smt-mir", design_ref="DESIGN.md §5 C31"),
     "C32": dict(
